@@ -10,12 +10,16 @@ import (
 	"math"
 	"math/big"
 	"math/rand"
+	"os"
 	"path/filepath"
 	"sort"
 	"strings"
 	"sync"
 	"time"
 
+	"verifh/cases"
+	"verifh/model"
+	"verifh/run"
 	"verifh/tlcrun"
 )
 
@@ -471,6 +475,157 @@ func checkC11(c *Ctx) {
 		ocs = append(ocs, genOutCase(rng, fmt.Sprintf("o%d", i+1)))
 	}
 	runOutputCases(c, env.api, ocs, func(p string) bool { return !isFootnotePred(p) })
+	cliOutputCases(c, rng)
+}
+
+// cliOutputCases: the three formats of real runs (generated repositories, the C14 fixture with rows at
+// several levels of concern, a bomb) at every threshold, judged by the same OutputJudge.
+func cliOutputCases(c *Ctx, rng *rand.Rand) {
+	env := newScanEnv(c, true, false)
+	var scs []cases.ScanCase
+	scs = append(scs, c14Fixture(), bombCase("c11-bomb", 33, 2, "file", 9))
+	n := 6
+	if !quick(c) {
+		n = 60
+	}
+	for i := 0; i < n; i++ {
+		gp := genParams{NBlob: 1 + rng.Intn(12), NTree: 1 + rng.Intn(12), NCommit: 1 + rng.Intn(14), NTag: rng.Intn(5), MaxEnt: 5, MaxBlob: 3000, Merges: true, RootKinds: "refs"}
+		sc := genCase(rng, fmt.Sprintf("c11r%d", i+1), gp)
+		scs = append(scs, sc)
+	}
+	cliOutputRun(c, env, scs)
+}
+
+func cliOutputRun(c *Ctx, env *scanEnv, scs []cases.ScanCase) {
+	type res struct {
+		oc outCase
+		a  outAnswer
+	}
+	out := make([]*res, len(scs))
+	var wg sync.WaitGroup
+	sem := make(chan struct{}, 8)
+	for i := range scs {
+		wg.Add(1)
+		sem <- struct{}{}
+		go func(i int) {
+			defer wg.Done()
+			defer func() { <-sem }()
+			sc := scs[i]
+			sc.Style = "hash"
+			dir, _ := os.MkdirTemp(c.Scratch, "c11-")
+			defer os.RemoveAll(dir)
+			repoDir := filepath.Join(dir, "r")
+			repo, err := materialiseCase(repoDir, &sc)
+			if err != nil {
+				return
+			}
+			var sel []string
+			for _, a := range sc.Args {
+				sel = append(sel, expandPlaceholders(a, repo))
+			}
+			exec1 := func(args ...string) (string, bool) {
+				r := env.bin.Run(run.Opt{Dir: repoDir, Args: append(append([]string{"--no-progress", "--names=hash"}, args...), sel...), Home: dir, Timeout: 120 * time.Second})
+				return string(r.Stdout), r.Exit == 0
+			}
+			a := outAnswer{Tables: map[string]string{}}
+			var ok1, ok2 bool
+			a.V1, ok1 = exec1("--json")
+			a.V2, ok2 = exec1("--json", "--json-version=2")
+			if !ok1 || !ok2 {
+				a.Panic = "git-sizer failed on a generated repository"
+			}
+			for _, th := range thresholds {
+				t, ok := exec1("--threshold=" + th.S)
+				if !ok {
+					a.Panic = "git-sizer failed with --threshold=" + th.S
+				}
+				a.Tables[th.S] = t
+			}
+			oc := outCase{ID: sc.ID, HS: map[string]string{}, Witness: map[string]string{}, Style: "hash"}
+			var v1 map[string]json.RawMessage
+			if json.Unmarshal([]byte(a.V1), &v1) == nil {
+				for _, it := range outItems {
+					oc.HS[it.Field] = strings.TrimSpace(string(v1[it.Field]))
+					if it.Wit {
+						var w string
+						json.Unmarshal(v1[model.WitnessKeys[it.Field]], &w)
+						if len(w) >= 40 {
+							oc.Witness[it.Field] = w[:40]
+						}
+					}
+				}
+			}
+			out[i] = &res{oc, a}
+		}(i)
+	}
+	wg.Wait()
+	var cs []map[string]interface{}
+	src := map[string]string{}
+	nrun := 0
+	for i, r := range out {
+		if r == nil {
+			continue
+		}
+		if r.a.Panic != "" {
+			c.AddViolation(Violation{Predicate: "no_report", Spec: "Output", Kind: "scan",
+				Input: map[string]interface{}{"mode": "cli", "case": scs[i]}, Observed: map[string]interface{}{"why": r.a.Panic}})
+			continue
+		}
+		for ti, th := range thresholds {
+			id := fmt.Sprintf("%s@%s", r.oc.ID, th.S)
+			jc, goBad := outputJudgeCase(id, r.oc, r.a, th)
+			nrun++
+			if jc == nil {
+				continue
+			}
+			if ti == 0 {
+				for _, g := range goBad {
+					c.AddViolation(Violation{Predicate: g, Spec: "Output (JSON v2 fields)", Kind: "output-cli",
+						Input: map[string]interface{}{"case": scs[i], "threshold": th.S}, Observed: map[string]interface{}{"bad": goBad}})
+				}
+			}
+			cs = append(cs, jc)
+			src[id] = scs[i].ID
+			c.Distinct("cli:" + id)
+		}
+	}
+	c.CountEval(int64(nrun))
+	bad := judgeOutput(c, cs)
+	byID := map[string]cases.ScanCase{}
+	for _, sc := range scs {
+		byID[sc.ID] = sc
+	}
+	for id, b := range bad {
+		var fl []string
+		for _, x := range b {
+			if !isFootnotePred(x) {
+				fl = append(fl, x)
+			}
+		}
+		if len(fl) > 0 {
+			th := id[strings.LastIndexByte(id, '@')+1:]
+			c.AddViolation(Violation{Predicate: strings.Join(fl, ","), Spec: "OutputJudge on the three formats of a real run", Kind: "output-cli",
+				Input: map[string]interface{}{"case": byID[src[id]], "threshold": th}, Observed: map[string]interface{}{"bad": b}})
+		}
+	}
+	c.Note("CLI: %d (repository, threshold) reports in three formats judged by TLC; %d rejected", len(cs), len(bad))
+}
+
+func replayOutputCLI(c *Ctx, raw json.RawMessage) bool {
+	// the replay re-runs the full CLI part on the one repository
+	var rp struct {
+		Input struct {
+			Case cases.ScanCase `json:"case"`
+		} `json:"input"`
+	}
+	json.Unmarshal(raw, &rp)
+	sub := &Ctx{Prop: c.Prop, Tier: "replay"}
+	sub.Ev.DistinctNT = map[string]bool{}
+	sub.Ev.Extra = map[string]interface{}{}
+	sub.Scratch, _ = mkScratch(c.Scratch)
+	before := len(sub.Vio)
+	cliOutputRun(sub, newScanEnv(sub, true, false), []cases.ScanCase{rp.Input.Case})
+	return len(sub.Vio) > before
 }
 
 func replayOutput(c *Ctx, raw json.RawMessage) bool {
@@ -518,4 +673,5 @@ func replayOutput(c *Ctx, raw json.RawMessage) bool {
 func init() {
 	checks["C11"] = checkC11
 	replays["output"] = replayOutput
+	replays["output-cli"] = replayOutputCLI
 }
